@@ -312,6 +312,42 @@ def r10_mass_switches(idx, r):
               msg=f"the fuel mass of a fuel block is conserved only under {conds}: in an assembly whose own flags lack FUEL (a radial blanket) the fuel blocks change mass when they are snapped to the expanded mesh")
 
 
+def r11_every_solid_fresh_linkage(idx, r):
+    """(a) the components that expand axially are ALL components that are not fluids: the filter of iterSolidComponents names the Fluid class
+    and nothing else.  A further excluded class (say Custom, which has no thermal expansion) would still be a legal expansion TARGET and
+    would still carry a prescribed growth - its block would no longer move with it.  (b) both entry points (prescribed, thermal) bind the
+    changer to the assembly - setAssembly - on every path before factors are stored or computed: setAssembly also resets ExpansionData, so
+    skipping it re-applies the factors of the previous call.  (c) argument pairing in the changer (setFuel / expandFromTinputToThot)."""
+    from ..pairing import pairing_rule
+    mod = "armi.reactor.converters.axialExpansionChanger"
+    f = idx.func(mod + ".expansionData.iterSolidComponents")
+    iso = [c for c in ast.walk(f.node) if isinstance(c, ast.Call) and dotted(c.func) == "isinstance"]
+    if len(iso) != 1:
+        raise AnchorMissing("iterSolidComponents: the isinstance filter")
+    second = iso[0].args[1]
+    env = single_assign_env(f.node)
+    second = propagate(second, env)
+    names = [norm(x) for x in (second.elts if isinstance(second, ast.Tuple) else [second])]
+    r.require(names in (["material.Fluid"], ["Fluid"]), "iterSolidComponents:only-fluids-are-left-out", f, node=iso[0],
+              msg=f"components of {names} are skipped: a component of another excluded class can still be the block's expansion target or be given a prescribed growth, and the block boundary then stays put")
+    aec = idx.cls(mod + ".axialExpansionChanger.AxialExpansionChanger")
+    n = 0
+    for meth in ("performPrescribedAxialExpansion", "performThermalAxialExpansion"):
+        g = aec.methods.get(meth)
+        if g is None:
+            raise AnchorMissing(f"AxialExpansionChanger.{meth}")
+        fl = Flow(g.node, lambda nd: ["bound"] if isinstance(nd, ast.Call) and dotted(nd.func) == "self.setAssembly" else []).run()
+        for c in iter_calls(g.node):
+            if norm(c.func).startswith("self.expansionData.") or dotted(c.func) == "self.axiallyExpandAssembly":
+                n += 1
+                st = fl.state_before(c) or {}
+                r.require(st.get("bound", (0, 0))[0] >= 1, f"{meth}:{call_attr(c)}:after-setAssembly-on-every-path", g, node=c,
+                          msg=f"`{norm(c)[:60]}` can run without setAssembly(): the linkage and the expansion factors of an earlier call are reused (a component named before but not now grows again)")
+    if n < 5:
+        raise AnchorMissing("expansion steps in the two entry points")
+    pairing_rule(idx, r, [mod], 25)
+
+
 def run(idx, chk):
     chk.explanation = (
         "C12: axiallyExpandAssembly typed with a role generator for the growth fraction (height x growth, densities x growth^-1); block bottoms on the "
@@ -337,3 +373,5 @@ def run(idx, chk):
                  necessary="a component linked to two components of a neighbouring block is refused, whichever side they are on")
     chk.run_rule("R12.10", "density scaling binds a new mapping; fuel-block mass conservation depends on the block's flags alone", lambda r: r10_mass_switches(idx, r), floor=2,
                  necessary="the mass of every solid component is conserved through expansion and re-meshing")
+    chk.run_rule("R12.11", "only fluids are left out of the expansion; setAssembly precedes every expansion step on every path; arguments stand at their parameter", lambda r: r11_every_solid_fresh_linkage(idx, r), floor=7,
+                 necessary="each block grows by its target component's factor of THIS call, computed from the reference temperature the caller chose")
